@@ -93,6 +93,19 @@ fn compare(cfg: &Cfg, full: &[Op], suffix: &[Op], a: &Out, b: &Out, out: &mut Jo
             }
             Kind::Roc | Kind::Er | Kind::Cci | Kind::Mfi => {
                 let mut r = reference(cfg, suffix);
+                // MoneyFlowIndex decides "moved / did not move" on typical prices rounded to f64; the exact
+                // reference may see a move of a fraction of an ulp where the f64 typical prices are equal.
+                // A window whose f64 typical prices do not move has no money flow: degenerate (C08's business)
+                if cfg.kind == Kind::Mfi {
+                    let w = &suffix[suffix.len().saturating_sub(cfg.p[0] + 1)..];
+                    let moved = w.windows(2).any(|p| match (&p[0], &p[1]) {
+                        (Op::B(a), Op::B(b)) => a.tp() != b.tp() && b.v != 0.0,
+                        _ => true,
+                    });
+                    if !moved {
+                        r.den_zero = true;
+                    }
+                }
                 if r.den_zero || (cfg.kind == Kind::Cci && r.neutral) {
                     // degenerate suffix window: C08's business
                     out.stats.skipped += 1;
@@ -166,7 +179,9 @@ pub fn run(ctx: &Ctx) -> CheckResult {
     for c in &cfgs {
         for l in 0..=extra {
             jobs.push((*c, c.kind.window(c).unwrap() + l, false));
-            if matches!(c.kind, Kind::Sma | Kind::Wma | Kind::Sd | Kind::Mad | Kind::Bb) {
+            // (for MFI the flag selects inexact prices and volumes: cancellation residue in the running
+            // totals needs flows that are not exactly representable)
+            if matches!(c.kind, Kind::Sma | Kind::Wma | Kind::Sd | Kind::Mad | Kind::Bb | Kind::Mfi) {
                 jobs.push((*c, c.kind.window(c).unwrap() + l, true));
             }
         }
@@ -176,7 +191,7 @@ pub fn run(ctx: &Ctx) -> CheckResult {
         let mut out = JobOut::default();
         let mut prefixes: Vec<Vec<u8>> = vec![];
         let (base, pre_vals): (&[f64], &[f64]) = if *hl { (&base_hl, &pre_hl) } else { (&base_lo, &pre_lo) };
-        let dpk = if (cfg.kind == Kind::Mfi && ctx.tier_thorough && cfg.p[0] <= 2) || *hl { dp + 1 } else { dp };
+        let dpk = if (cfg.kind == Kind::Mfi && ctx.tier_thorough && cfg.p[0] <= 2) || (*hl && cfg.kind != Kind::Mfi) { dp + 1 } else { dp };
         // one extra symbol (index pre_vals.len()) stands for reset(): "any history" includes re-use
         for_each_seq(pre_vals.len() + 1, None, dpk, |s| {
             prefixes.push(s.to_vec());
@@ -192,6 +207,11 @@ pub fn run(ctx: &Ctx) -> CheckResult {
         mfi_pre.push(Bar::hlcv(0.5, 0.5, 0.5, 0.0));
         let mut mfi_base = mfi_base;
         mfi_base.push(Bar::hlcv(2.5, 2.5, 2.5, 0.0));
+        if *hl && cfg.kind == Kind::Mfi {
+            let f = |b: &Bar| Bar { o: b.o * 0.7 + 0.013, h: b.h * 0.7 + 0.013, l: b.l * 0.7 + 0.013, c: b.c * 0.7 + 0.013, v: if b.v == 0.0 { 0.0 } else { b.v * 130.0 + 7.0 } };
+            mfi_base = mfi_base.iter().map(f).collect();
+            mfi_pre = mfi_pre.iter().map(f).collect();
+        }
         let mut suffix: Vec<Op> = vec![];
         let mut full: Vec<Op> = vec![];
         let mut n = 0u64;
